@@ -109,7 +109,17 @@ func ExponentialBackoff(backoff time.Duration, factor, jitter float64) Backoff {
 
 		// do exponential backoff with jitter
 		temp := float64(backoff) * math.Pow(factor, float64(attempt))
-		return time.Duration(temp*(1-jitter)) + time.Duration(rand.Int64N(int64(2*jitter*temp)))
+		// saturate so that the conversions below cannot overflow for large
+		// attempt numbers
+		if limit := float64(math.MaxInt64) / 2; temp > limit {
+			temp = limit
+		}
+		duration := time.Duration(temp * (1 - jitter))
+		// rand.Int64N panics for a non-positive argument (zero jitter or backoff)
+		if jitterRange := int64(2 * jitter * temp); jitterRange > 0 {
+			duration += time.Duration(rand.Int64N(jitterRange))
+		}
+		return duration
 	}
 }
 
